@@ -686,6 +686,9 @@ func init() {
 			for _, lg := range []string{"root", "child", "default", "default=child"} {
 				for _, e := range c14entries() {
 					emit(c14case{Entry: e.name, Format: f, Logger: lg})
+					if workerVerboseBuild {
+						continue // (in that build the library traces AddFlags and the like through Verbose itself: plain cases only)
+					}
 					if e.kind == "adapter" || e.kind == "bridge" || c.Thorough() || lg == "child" {
 						emit(c14case{Entry: e.name, Format: f, Logger: lg, Prior: "built-off"})
 					}
